@@ -66,7 +66,8 @@ func Prop() *core.Prop {
 			"Oracle over the event log: Join=nil needs an own self-presence sent before the return and not processed before the call; a stanza error needs the room's error for that request id; any other error needs a cancelled context; Joined() at a barrier equals the occupant model when the log determines it; Leave likewise; no user-presence callback for rooms never joined; every invitation marker delivered exactly once with equal fields; calls whose answer was processed but that stay parked are decided by the stall rule. distinct = (story shapes, outcome vector).",
 		Assumptions: []string{
 			"the serve loop handles stanzas in order, so a ping answered by the session means everything sent before it was processed",
-			"Joined() is sampled on the channel returned by the latest Client.Join for the address, never while a call on that address is in flight; samples the log does not determine are skipped",
+			"Joined() is asked of every channel value a Client.Join ever returned for the address; the latest one, with no call on the address in flight, is judged in both directions, replaced ones only once the model says the occupant is out (then they must all say so, also while a fresh Client.Join is merely pending); samples the log does not determine are skipped, as are all samples of an occupant whose join request the library sent to another nick",
+			"the room answers a join at the address the request was actually sent to",
 			"a Leave that returns nil is justified by any unavailable self-presence sent before it returned",
 		},
 		Cases: func(tier string) int {
@@ -81,7 +82,8 @@ func Prop() *core.Prop {
 		Require: []string{
 			"sequences", "join_success", "joined_sampled_while_in", "joined_sampled_while_out", "join_room_error_returned", "join_cancelled",
 			"leave_success", "kicks", "foreign_presences", "invites_delivered_once", "barriers",
-			"forced_M1_reached", "forced_M2_reached", "forced_M3_reached", "own_removal_301", "own_removal_307", "own_removal_321", "own_removal_322", "own_removal_332", "own_departure_affiliation_outcast", "others_removal_301",
+			"forced_M1_reached", "forced_M2_reached", "forced_M3_reached", "calls_with_nick_same", "calls_with_nick_different", "calls_with_password", "calls_with_history_option", "replaced_channels_sampled_while_out",
+			"own_removal_301", "own_removal_307", "own_removal_321", "own_removal_322", "own_removal_332", "own_departure_affiliation_outcast", "others_removal_301",
 			"forced_M4_reached", "forced_M5_reached", "forced_M6_reached", "forced_M7_reached", "forced_M8_reached", "stories_error_then_cancel", "foreign_malformed_payloads",
 		},
 	}
